@@ -44,7 +44,7 @@ fn main() {
                 run.cov("rule", serde_json::json!(rawx_run::RULE));
                 run.finish()
             }
-            p @ ("C03" | "C04" | "C07" | "C16") => {
+            p @ ("C03" | "C04" | "C07" | "C16" | "C08" | "C20") => {
                 let kf = report::KnownFindings::load();
                 let mut run = report::Run::new(p, tier, "vecx");
                 vecx_run::add(&mut run, &kf, p, tier, if tier == "quick" { 45 } else { 1500 });
